@@ -146,6 +146,66 @@ def lift_ok(s0: bool, s1: bool, s2: bool, t0: bool, t1: bool, t2: bool, k0: bool
 
 
 # ---- few vs very many arguments ---------------------------------------------------
+UNARY = ['ISNUMBER', 'ISTEXT', 'ISERROR', 'ISBLANK', 'ISLOGICAL', 'ISNA', 'ISNONTEXT', 'ISERR', 'NOT', 'ABS', 'LEN', 'T_OF_TRANSPOSE']
+
+
+def relayout(a, layout):
+    """the same logical array in another memory layout (results of TRANSPOSE, slices and numpy operations are
+    views / Fortran-ordered arrays; position (i, j) means the same element whatever the layout)"""
+    if not isinstance(a, np.ndarray):
+        return a
+    if layout == 1:
+        return np.asfortranarray(a)
+    if layout == 2:
+        return a.T.copy().T                    # what TRANSPOSE hands on: a transposed view
+    if layout == 3:
+        big = np.empty((a.shape[0] * 2, a.shape[1] * 2), object)
+        big[:] = 'pad'
+        big[::2, ::2] = a
+        return big[::2, ::2]                   # a strided slice
+    return a
+
+
+def plain(v):
+    return v.item() if isinstance(v, np.generic) else v
+
+
+def call1(name, x):
+    if name == 'T_OF_TRANSPOSE':               # through the real TRANSPOSE
+        return F['ISNUMBER'](F['TRANSPOSE'](F['TRANSPOSE'](x))) if isinstance(x, np.ndarray) else F['ISNUMBER'](x)
+    f = F[name]
+    return (f['function'] if isinstance(f, dict) else f)(x)
+
+
+def _unary(s, k, layout, fi):
+    shapes = [(0, 0), (1, 1), (1, 3), (3, 1), (2, 3), (3, 2), (2, 2), (2, 4)]
+    shp = shapes[s]
+    x = POOLV[k] if shp == (0, 0) else elem(shp, k)
+    name = UNARY[fi]
+    got = np.asarray(call1(name, relayout(x, layout)), object)
+    R, C = (1, 1) if shp == (0, 0) else shp
+    if got.shape not in ((R, C), ()) or (got.shape == () and (R, C) != (1, 1)):
+        return False
+    for i in range(R):
+        for j in range(C):
+            want = plain(np.asarray(call1(name, at(x, i, j)), object).ravel()[0])
+            g = plain(got[i, j] if got.shape else got[()])
+            same = (g is want) if isinstance(want, XlError) else (type(g) is type(want) and g == want)
+            if not same:
+                return False
+    return True
+
+
+def unary_ok(s0: bool, s1: bool, s2: bool, k0: bool, k1: bool, k2: bool, k3: bool, l0: bool, l1: bool,
+             f0: bool, f1: bool, f2: bool, f3: bool) -> bool:
+    """
+    pre: sel(k0, k1, k2, k3) < len(POOLV) and sel(f0, f1, f2, f3) < len(UNARY)
+    post: _
+    """
+    # element-wise functions of one argument, position by position, whatever the memory layout of the array
+    return concrete(_unary, sel(s0, s1, s2), sel(k0, k1, k2, k3), sel(l0, l1), sel(f0, f1, f2, f3))
+
+
 def _many(s1, s2, n, pos):
     shapes = [(0, 0), (1, 2), (2, 1), (2, 2), (1, 1), (3, 1), (1, 3), (2, 3)]
     x = 's' if shapes[s1] == (0, 0) else elem(shapes[s1], 4)
